@@ -31,6 +31,10 @@ def c18(ctx):
              "truncate) produces text -- no such cast flows into to_string / a format argument / a string being built; the words and the "
              "report both come from the f64's own Display")
     text_from_cast_rule(ctx, "C18.R6")
+    rep.rule("C18.R7", "the text the words are counted from is the plain decimal rendering: Display for NumericConstant hands self.value to "
+             "<f64 as Display>::fmt on every path and writes nothing else to the formatter (no exponent form, no precision, no prefix), "
+             "so every character of the text is a decimal digit, '.', or a sign -- the alphabet the template maps to words")
+    constant_display_rule(ctx, "C18.R7")
     # the value named in the report is the folder's: re-run the folder/interpreter agreement rules under this property
     rep.rule("C18.R5", "the reported value is the one execution computes: the agreement rules of C17 (operator map, operand order, fold "
              "shape, never for non-constants) re-checked here, because a wrong fold makes the report and its suggestion wrong")
@@ -270,6 +274,34 @@ def spelling_guard_rule(ctx, rule):
         ok = rows == want and not I_.incomplete
         rep.ob(rule, "string-suggestion-guarded", ok, "" if ok else "a `says` suggestion is not made exactly for strings without a line break (a poetic string ends at the end of the line): %s" % sorted(rows, key=str), fn.loc(),
                how="contains('\\n') -> None, otherwise Some(..)")
+
+
+def constant_display_rule(ctx, rule):
+    F, rep = ctx.F, ctx.rep
+    fn = None
+    for f in F.all_fns(tests=False):
+        if f.path == "<analysis::tools::NumericConstant as std::fmt::Display>::fmt":
+            fn = f
+    if fn is None:
+        rep.fail(rule, "anchor", "impl Display for NumericConstant not found")
+        return
+    rep.analysed(fn)
+    plain = [bi for bi, t in fn.calls() if callee_def(t) == "std::fmt::Display::fmt" and (t["callee"].get("inst") or "").startswith("<f64 as")]
+    ok, why = True, ""
+    if len(plain) != 1:
+        ok, why = False, "expected one call of <f64 as Display>::fmt, found %d" % len(plain)
+    else:
+        t = fn.term(plain[0])
+        if not any(d[0] == "param" and d[1] == 1 and p[-1:] == ("value",) for d, p in origins(fn, t["args"][0])):
+            ok, why = False, "what is rendered is not self.value"
+        elif common.path_to_return_avoiding(fn, plain, through_errors=True):
+            ok, why = False, "on some path the constant is rendered by other means than <f64 as Display>::fmt (an exponent or otherwise decorated form contains characters the poetic template cannot spell)"
+        else:
+            others = [callee_def(t2) for b2 in F.with_closures(fn) for bi2, t2 in b2.calls()
+                      if not (b2 is fn and bi2 == plain[0]) and any("Formatter" in b2.local_ty(op_local(a)).s for a in t2["args"] if op_local(a) is not None)]
+            if others:
+                ok, why = False, "the formatter is also written to by %s" % sorted(set(x or "?" for x in others))
+    rep.ob(rule, "constant-text-is-f64-display", ok, why, fn.loc(), how="self.value.fmt(f), nothing else")
 
 
 def text_from_cast_rule(ctx, rule, scope=None, min_fns=20):
